@@ -687,7 +687,16 @@ func c04RunSweep(c *probe.Ctx, shard, shards int) {
 			for i := 0; i < f.Width; i++ {
 				cur = cur<<8 | uint64(tp.w[f.Off+i])
 			}
-			for _, v := range c04SizeValues(f.Width, cur, c.Thorough()) {
+			values := c04SizeValues(f.Width, cur, c.Thorough())
+			if !c.Thorough() && (f.Kind == ref.FHdrNext || f.Kind == ref.FPayNext) {
+				// next-payload octets: every supported type, the neighbours, and representatives of the unsupported ranges
+				values = values[:0]
+				for v := uint64(0); v <= 50; v++ {
+					values = append(values, v)
+				}
+				values = append(values, 127, 128, 200, 255)
+			}
+			for _, v := range values {
 				mw := append([]byte(nil), tp.w...)
 				x := v
 				for i := f.Width - 1; i >= 0; i-- {
